@@ -473,6 +473,8 @@ def panic_sites(b):
             elif any(p.startswith(x) for x in PANIC_PATHS):
                 bad = "explicit panic (%s)" % p.split("::")[-1]
             elif nm in ("index", "index_mut") and "ops::Index" in p:
+                if any("RangeFull" in g for g in (c.get("generic_args") or [])) or "RangeFull" in (c.get("ty") or ""):
+                    continue            # `&a[..]`: the full range is always in bounds
                 bad = "indexing call"
             elif nm in ("div", "rem", "add", "sub", "mul", "shl", "shr", "neg") and p.startswith("std::ops::") and c.get("instance") is None:
                 bad = "operator %s on a library type" % nm
